@@ -15,35 +15,49 @@
 -/
 import Props.Lemmas.C15_Monitor
 import Props.Lemmas.C15_Links
+import Props.Lemmas.C15_Stays
+import Props.Lemmas.C15_Mixed
 
 namespace Pypyr.C15
 open Pypyr.FsRewrite
 
-/- `WF fs0 src tmp body` (Props/Lemmas/C15_Exec.lean): the hypotheses of one well-formed in-place
+/- `WF fs0 src dst tmp body` (Props/Lemmas/C15_Exec.lean): the hypotheses of one well-formed in-place
    rewrite — the source exists in `fs0`, the name the temp file will get is not in the directory
-   (NamedTemporaryFile picks an unused name), the body consists of fmt/write operations.
+   (NamedTemporaryFile picks an unused name), the body consists of fmt/write operations; `dst`, the
+   entry `os.replace` lands on, is `src` itself or (in path = a symlink) an entry that is not a regular
+   file of the directory. `early`: ObjectRewriter (source closed before the temp file is made) vs
+   StreamRewriter (source closed between the close of the temp file and the rename).
    `JobsWF fs0 J` (Props/Lemmas/C15_Multi.lean): the same for every job of a list, plus
    "no out, or out equal to in". -/
 
 private def fsEx : Fs := [("a.txt", "AA"), ("b.txt", "BB")]
 private def bodyEx : List Op := streamBody 1 ["X", "Y"]
 
-private theorem wfEx : WF fsEx "a.txt" "tmp#0" bodyEx where
+private theorem wfEx : WF fsEx "a.txt" "a.txt" "tmp#0" bodyEx where
   srcExists := by decide +kernel
   tmpFresh := by decide +kernel
   bodyOps := by decide +kernel
+  dstOk := Or.inl rfl
+  dstNeTmp := by decide
+
+/-- The operation list of the example (StreamRewriter, two lines): indices 0 sameFile, 1 openRead, 2 mkTemp,
+    3 fmt, 4 write X, 5 fmt, 6 write Y, 7 close, 8 closeIn, 9 replace. -/
+example : inplaceOps false "a.txt" "a.txt" "tmp#0" bodyEx =
+    [.sameFile, .openRead "a.txt", .mkTemp "tmp#0", .fmt 1, .write 1 "X", .fmt 2, .write 2 "Y", .close, .closeIn,
+     .replace "a.txt"] := by decide +kernel
 
 /-! ### One file -/
 
-/-- **src_always_whole.** At every prefix of the operation list, under every fault plan, the source
-    path holds the complete original bytes — unless the entry is the one produced by a successful
-    `replace`, in which case it holds the complete new content (the concatenation of all chunks). -/
-theorem src_always_whole {fs0 : Fs} {src tmp orig : String} {body : List Op}
-    (wf : WF fs0 src tmp body) (ho : fs0.get? src = some orig) (cfg : Cfg) (plan : Plan) (i : Nat) :
-    ∀ ev ∈ (exec cfg plan i { fs := fs0 } (inplaceOps src tmp body)).2,
-      ev.2.get? src = some orig ∨ (ev.1 = "replace" ∧ ev.2.get? src = some (newContent body)) := by
+/-- **src_always_whole.** At every prefix of the operation list, under every fault plan (Exceptions,
+    BaseExceptions, kills, in any number), the source path holds the complete original bytes — unless
+    the entry is the one produced by a successful `replace`, in which case the entry the in path names
+    holds the complete new content (the concatenation of all chunks). -/
+theorem src_always_whole {fs0 : Fs} {src dst tmp orig : String} {body : List Op} (early : Bool)
+    (wf : WF fs0 src dst tmp body) (ho : fs0.get? src = some orig) (cfg : Cfg) (plan : Plan) (i : Nat) :
+    ∀ ev ∈ (exec cfg plan i { fs := fs0 } (inplaceOps early src dst tmp body)).2,
+      ev.2.get? src = some orig ∨ (ev.1 = "replace" ∧ ev.2.get? dst = some (newContent body)) := by
   intro ev hm
-  have P := exec_inplace (cfg := cfg) (plan := plan) body wf.bodyOps wf.tmpFresh wf.srcExists i
+  have P := exec_inplace (dst := dst) (cfg := cfg) (plan := plan) early body wf.bodyOps wf.tmpFresh wf.srcExists i
   rcases P.shape ev hm with hab | ⟨hl, hc⟩
   · left
     rcases hab with h | ⟨c, h⟩
@@ -52,66 +66,180 @@ theorem src_always_whole {fs0 : Fs} {src tmp orig : String} {body : List Op}
   · right
     exact ⟨hl, by rw [hc]; exact Fs.get?_set_self⟩
 
-example : ∃ ev ∈ (exec {} (Plan.single 7 .kill) 0 { fs := fsEx } (inplaceOps "a.txt" "tmp#0" bodyEx)).2,
+example : ∃ ev ∈ (exec {} (Plan.single 7 .kill) 0 { fs := fsEx } (inplaceOps false "a.txt" "a.txt" "tmp#0" bodyEx)).2,
     ev.2.get? "a.txt" = some "AA" ∧ ev.2.get? "tmp#0" = some "XY" :=
   ⟨("write", [("a.txt", "AA"), ("b.txt", "BB"), ("tmp#0", "XY")]), by decide +kernel, by decide +kernel⟩
 
-/-- **raise_leaves_no_temp** (the code as it is now, `cleanupWrite = true`). A rewrite that ends by
-    raising — at whatever operation, after however many writes — leaves exactly the original
-    directory, provided the clean-up's own `os.remove` was not made to fail as well. -/
-theorem raise_leaves_no_temp {fs0 : Fs} {src tmp : String} {body : List Op}
-    (wf : WF fs0 src tmp body) (plan : Plan) (i j : Nat)
-    (hr : (exec {} plan i { fs := fs0 } (inplaceOps src tmp body)).1 = .raised j)
-    (hclean : plan (j + 1) ≠ .raise) :
-    final fs0 (exec {} plan i { fs := fs0 } (inplaceOps src tmp body)).2 = fs0 :=
-  (exec_inplace (cfg := {}) (plan := plan) body wf.bodyOps wf.tmpFresh wf.srcExists i).raised j hr rfl hclean
+/-- **raise_leaves_no_temp** (the code as it is now: `Cfg` = `{}`, clean-up handlers `except BaseException:`,
+    the close of the source file inside the `try`). A rewrite that ends by raising — an Exception or a
+    BaseException (KeyboardInterrupt, SystemExit, GeneratorExit), at whatever operation (formatting, a write,
+    the close of the temp file, the close of the source file, the rename), after however many writes —
+    leaves exactly the original directory, provided the clean-up itself did not fail (no `removeTemp!`
+    event: `remove_temp_file`'s own `os.remove` did not raise). What remains when it did:
+    `cleanup_failure_leaves_temp`. -/
+theorem raise_leaves_no_temp {fs0 : Fs} {src dst tmp : String} {body : List Op} (early : Bool)
+    (wf : WF fs0 src dst tmp body) (plan : Plan) (i j : Nat)
+    (hr : (exec {} plan i { fs := fs0 } (inplaceOps early src dst tmp body)).1 = .raised j)
+    (hrm : ∀ ev ∈ (exec {} plan i { fs := fs0 } (inplaceOps early src dst tmp body)).2, ev.1 ≠ "removeTemp!") :
+    final fs0 (exec {} plan i { fs := fs0 } (inplaceOps early src dst tmp body)).2 = fs0 :=
+  (exec_inplace (dst := dst) (cfg := {}) (plan := plan) early body wf.bodyOps wf.tmpFresh wf.srcExists i).raised
+    j hr rfl rfl rfl hrm
 
-/-- The same for every single-fault plan "operation `p` raises": the run ends `ok` (p beyond the
-    list) or `raised`, never with anything but the original directory in the latter case. -/
-theorem raise_leaves_no_temp_single {fs0 : Fs} {src tmp : String} {body : List Op}
-    (wf : WF fs0 src tmp body) (p j : Nat)
-    (hr : (exec {} (Plan.single p .raise) 0 { fs := fs0 } (inplaceOps src tmp body)).1 = .raised j) :
-    final fs0 (exec {} (Plan.single p .raise) 0 { fs := fs0 } (inplaceOps src tmp body)).2 = fs0 := by
-  have P := exec_inplace (cfg := {}) (plan := Plan.single p .raise) body wf.bodyOps wf.tmpFresh wf.srcExists 0
-  have hj := P.raisedAt j hr
-  have hjp : j = p := by
-    simp only [Plan.single] at hj
-    by_cases h : j = p
-    · exact h
-    · simp [h] at hj
-  apply raise_leaves_no_temp wf _ 0 j hr
-  simp [Plan.single, hjp]
+/-- **raise_leaves_no_temp_of_plan.** The same with the hypothesis on the fault plan: a failed clean-up
+    takes two adjacent faults (the operation, then the `os.remove`); a plan without two adjacent
+    raising faults — any number of Exceptions, BaseExceptions and kills otherwise — never leaves a temp file
+    behind when the rewrite raises. -/
+theorem raise_leaves_no_temp_of_plan {fs0 : Fs} {src dst tmp : String} {body : List Op} (early : Bool)
+    (wf : WF fs0 src dst tmp body) (plan : Plan) (hplan : ∀ k, ¬ TwoFaults plan k) (i j : Nat)
+    (hr : (exec {} plan i { fs := fs0 } (inplaceOps early src dst tmp body)).1 = .raised j) :
+    final fs0 (exec {} plan i { fs := fs0 } (inplaceOps early src dst tmp body)).2 = fs0 := by
+  have P := exec_inplace (dst := dst) (cfg := {}) (plan := plan) early body wf.bodyOps wf.tmpFresh wf.srcExists i
+  apply raise_leaves_no_temp early wf plan i j hr
+  intro ev hm he
+  obtain ⟨k, hk⟩ := P.rmNeeds2 ev hm he
+  exact hplan k hk
 
-example : (exec {} (Plan.single 5 .raise) 0 { fs := fsEx } (inplaceOps "a.txt" "tmp#0" bodyEx)).1 = .raised 5 := by
+/-- For every single-fault plan "operation `p` raises" — an Exception (`k = .raise`) or a BaseException
+    (`k = .raiseBase`), `p` any operation including the close of the source file: the run ends `ok` (p beyond
+    the list) or `raised`, never with anything but the original directory in the latter case. -/
+theorem raise_leaves_no_temp_single {fs0 : Fs} {src dst tmp : String} {body : List Op} (early : Bool)
+    (wf : WF fs0 src dst tmp body) (p j : Nat) (k : Fault)
+    (hr : (exec {} (Plan.single p k) 0 { fs := fs0 } (inplaceOps early src dst tmp body)).1 = .raised j) :
+    final fs0 (exec {} (Plan.single p k) 0 { fs := fs0 } (inplaceOps early src dst tmp body)).2 = fs0 := by
+  apply raise_leaves_no_temp_of_plan early wf _ _ 0 j hr
+  intro q ⟨h1, h2⟩
+  simp only [Plan.single] at h1 h2
+  by_cases hq : q = p
+  · subst hq
+    simp at h2
+  · simp [hq] at h1
+
+example : (exec {} (Plan.single 5 .raise) 0 { fs := fsEx } (inplaceOps false "a.txt" "a.txt" "tmp#0" bodyEx)).1 = .raised 5 := by
+  decide +kernel
+
+/-- KeyboardInterrupt while the second line is formatted; the close of the source file fails; the rename is
+    interrupted: the run ends raised and nothing is left behind. -/
+example :
+    (exec {} (Plan.single 5 .raiseBase) 0 { fs := fsEx } (inplaceOps false "a.txt" "a.txt" "tmp#0" bodyEx)).1 = .raised 5 ∧
+    final fsEx (exec {} (Plan.single 5 .raiseBase) 0 { fs := fsEx }
+      (inplaceOps false "a.txt" "a.txt" "tmp#0" bodyEx)).2 = fsEx ∧
+    final fsEx (exec {} (Plan.single 8 .raise) 0 { fs := fsEx }
+      (inplaceOps false "a.txt" "a.txt" "tmp#0" bodyEx)).2 = fsEx ∧
+    final fsEx (exec {} (Plan.single 9 .raiseBase) 0 { fs := fsEx }
+      (inplaceOps false "a.txt" "a.txt" "tmp#0" bodyEx)).2 = fsEx := by
+  decide +kernel
+
+/-- **raise_leaves_temp_or_nothing.** HOWEVER a rewrite comes to raise — whatever the `except` arrangement
+    (`cfg`: the code now, or any of the earlier ones), an Exception or a BaseException, a clean-up that works or
+    fails; any number of faults — the directory afterwards is the original one, or the original one plus the
+    temp entry: the source holds its original bytes, no other entry changed, nothing is missing. -/
+theorem raise_leaves_temp_or_nothing {fs0 : Fs} {src dst tmp orig : String} {body : List Op} (early : Bool)
+    (wf : WF fs0 src dst tmp body) (ho : fs0.get? src = some orig) (cfg : Cfg) (plan : Plan) (i j : Nat)
+    (hr : (exec cfg plan i { fs := fs0 } (inplaceOps early src dst tmp body)).1 = .raised j) :
+    let fin := final fs0 (exec cfg plan i { fs := fs0 } (inplaceOps early src dst tmp body)).2
+    (fin = fs0 ∨ ∃ c, fin = fs0 ++ [(tmp, c)]) ∧ fin.get? src = some orig := by
+  have P := exec_inplace (dst := dst) (cfg := cfg) (plan := plan) early body wf.bodyOps wf.tmpFresh wf.srcExists i
+  have h := P.raisedAB j hr
+  simp only []
+  refine ⟨h, ?_⟩
+  rcases h with h | ⟨c, h⟩
+  · rw [h, ho]
+  · rw [h, Fs.get?_append_other wf.ne, ho]
+
+/-- **cleanup_failure_leaves_temp.** What remains when the clean-up fails too: the rewrite raised and
+    `remove_temp_file`'s `os.remove` raised as well (event `removeTemp!`: an Exception there is logged and
+    swallowed and the original error propagates; a BaseException there propagates instead): the temp entry
+    STAYS, the source holds its original bytes. (The only way a raising rewrite leaves anything behind:
+    `raise_leaves_no_temp`.) -/
+theorem cleanup_failure_leaves_temp {fs0 : Fs} {src dst tmp orig : String} {body : List Op} (early : Bool)
+    (wf : WF fs0 src dst tmp body) (ho : fs0.get? src = some orig) (cfg : Cfg) (plan : Plan) (i j : Nat)
+    (hr : (exec cfg plan i { fs := fs0 } (inplaceOps early src dst tmp body)).1 = .raised j)
+    (hrm : ∃ ev ∈ (exec cfg plan i { fs := fs0 } (inplaceOps early src dst tmp body)).2, ev.1 = "removeTemp!") :
+    let fin := final fs0 (exec cfg plan i { fs := fs0 } (inplaceOps early src dst tmp body)).2
+    (∃ c, fin = fs0 ++ [(tmp, c)]) ∧ fin.get? src = some orig := by
+  obtain ⟨c, hc⟩ := exec_inplace_stays (dst := dst) (cfg := cfg) (plan := plan) early body wf.bodyOps wf.tmpFresh
+    wf.srcExists i j hr hrm
+  simp only []
+  exact ⟨⟨c, hc⟩, by rw [hc, Fs.get?_append_other wf.ne, ho]⟩
+
+/-- rename fails and then the clean-up's `os.remove` fails too (OSError: swallowed; KeyboardInterrupt: it is
+    what propagates): the complete temp file stays. -/
+example : (exec {} (Plan.double 9 .raise 10 .raise) 0 { fs := fsEx } (inplaceOps false "a.txt" "a.txt" "tmp#0" bodyEx)).1
+      = .raised 9 ∧
+    final fsEx (exec {} (Plan.double 9 .raise 10 .raise) 0 { fs := fsEx }
+      (inplaceOps false "a.txt" "a.txt" "tmp#0" bodyEx)).2 = fsEx ++ [("tmp#0", "XY")] ∧
+    (exec {} (Plan.double 9 .raise 10 .raiseBase) 0 { fs := fsEx }
+      (inplaceOps false "a.txt" "a.txt" "tmp#0" bodyEx)).1 = .raised 10 ∧
+    final fsEx (exec {} (Plan.double 9 .raise 10 .raiseBase) 0 { fs := fsEx }
+      (inplaceOps false "a.txt" "a.txt" "tmp#0" bodyEx)).2 = fsEx ++ [("tmp#0", "XY")] ∧
+    (∃ ev ∈ (exec {} (Plan.double 9 .raise 10 .raise) 0 { fs := fsEx }
+      (inplaceOps false "a.txt" "a.txt" "tmp#0" bodyEx)).2, ev.1 = "removeTemp!") := by
+  refine ⟨by decide +kernel, by decide +kernel, by decide +kernel, by decide +kernel, ?_⟩
+  exact ⟨("removeTemp!", fsEx ++ [("tmp#0", "XY")]), by decide +kernel, rfl⟩
+
+/-- **base_exception_temp_stays_pre_fix** (defect repaired by 66bb5ed). With the OLD clean-up handlers
+    (`except Exception:` in both `in_to_out`s and in `move_temp_file`: `cleanupBase = false`) a KeyboardInterrupt
+    while the second line is formatted passed them by: the run ended raised and the temp file with the
+    first line stayed in the directory while the process lived on; likewise an interrupted rename. The same
+    plans against the code as it is now leave the original directory. -/
+theorem base_exception_temp_stays_pre_fix :
+    (exec { cleanupBase := false } (Plan.single 5 .raiseBase) 0 { fs := fsEx }
+      (inplaceOps false "a.txt" "a.txt" "tmp#0" bodyEx)).1 = .raised 5 ∧
+    final fsEx (exec { cleanupBase := false } (Plan.single 5 .raiseBase) 0 { fs := fsEx }
+      (inplaceOps false "a.txt" "a.txt" "tmp#0" bodyEx)).2 = fsEx ++ [("tmp#0", "X")] ∧
+    final fsEx (exec { cleanupBase := false } (Plan.single 9 .raiseBase) 0 { fs := fsEx }
+      (inplaceOps false "a.txt" "a.txt" "tmp#0" bodyEx)).2 = fsEx ++ [("tmp#0", "XY")] ∧
+    final fsEx (exec {} (Plan.single 5 .raiseBase) 0 { fs := fsEx }
+      (inplaceOps false "a.txt" "a.txt" "tmp#0" bodyEx)).2 = fsEx ∧
+    final fsEx (exec {} (Plan.single 9 .raiseBase) 0 { fs := fsEx }
+      (inplaceOps false "a.txt" "a.txt" "tmp#0" bodyEx)).2 = fsEx := by
+  decide +kernel
+
+/-- **closeIn_failure_leaves_temp_pre_fix** (defect repaired by 66bb5ed). StreamRewriter closes the source
+    file between the close of the temp file and `move_temp_file`; before the fix that close was outside
+    every `try` (`closeInTry = false`): if it raised, the complete temp file stayed and the source was not
+    replaced. Now it is inside the `try`: the temp file is removed. ObjectRewriter closes the source before
+    the temp file exists: a failure there leaves the directory untouched under either arrangement. -/
+theorem closeIn_failure_leaves_temp_pre_fix :
+    (exec { closeInTry := false } (Plan.single 8 .raise) 0 { fs := fsEx }
+      (inplaceOps false "a.txt" "a.txt" "tmp#0" bodyEx)).1 = .raised 8 ∧
+    final fsEx (exec { closeInTry := false } (Plan.single 8 .raise) 0 { fs := fsEx }
+      (inplaceOps false "a.txt" "a.txt" "tmp#0" bodyEx)).2 = fsEx ++ [("tmp#0", "XY")] ∧
+    final fsEx (exec {} (Plan.single 8 .raise) 0 { fs := fsEx }
+      (inplaceOps false "a.txt" "a.txt" "tmp#0" bodyEx)).2 = fsEx ∧
+    (exec { closeInTry := false } (Plan.single 2 .raise) 0 { fs := fsEx }
+      (inplaceOps true "a.txt" "a.txt" "tmp#0" (objectBody ["X", "Y"]))).2
+      = [("sameFile", fsEx), ("openRead", fsEx), ("closeIn!", fsEx)] := by
   decide +kernel
 
 /-- **success_same_entries.** A rewrite that ends `ok` leaves the directory with exactly the entries
-    it had, the source holding the complete new content and nothing else changed. -/
-theorem success_same_entries {fs0 : Fs} {src tmp : String} {body : List Op}
-    (wf : WF fs0 src tmp body) (cfg : Cfg) (plan : Plan) (i : Nat)
-    (hok : (exec cfg plan i { fs := fs0 } (inplaceOps src tmp body)).1 = .ok) :
-    let fin := final fs0 (exec cfg plan i { fs := fs0 } (inplaceOps src tmp body)).2
-    fin = fs0.set src (newContent body) ∧ fin.names = fs0.names ∧
-      fin.get? src = some (newContent body) := by
-  have P := exec_inplace (cfg := cfg) (plan := plan) body wf.bodyOps wf.tmpFresh wf.srcExists i
+    it had (the in path not being a symlink: `dst = src`), the source holding the complete new content
+    and nothing else changed. -/
+theorem success_same_entries {fs0 : Fs} {src dst tmp : String} {body : List Op} (early : Bool)
+    (wf : WF fs0 src dst tmp body) (cfg : Cfg) (plan : Plan) (i : Nat)
+    (hok : (exec cfg plan i { fs := fs0 } (inplaceOps early src dst tmp body)).1 = .ok) :
+    let fin := final fs0 (exec cfg plan i { fs := fs0 } (inplaceOps early src dst tmp body)).2
+    fin = fs0.set dst (newContent body) ∧ (dst = src → fin.names = fs0.names) ∧
+      fin.get? dst = some (newContent body) := by
+  have P := exec_inplace (dst := dst) (cfg := cfg) (plan := plan) early body wf.bodyOps wf.tmpFresh wf.srcExists i
   have h := P.ok hok
   simp only []
   rw [h]
-  exact ⟨rfl, Fs.names_set_of_mem wf.srcExists, Fs.get?_set_self⟩
+  exact ⟨rfl, fun hd => by rw [hd]; exact Fs.names_set_of_mem wf.srcExists, Fs.get?_set_self⟩
 
-example : (exec {} Plan.clean 0 { fs := fsEx } (inplaceOps "a.txt" "tmp#0" bodyEx)).1 = .ok ∧
-    final fsEx (exec {} Plan.clean 0 { fs := fsEx } (inplaceOps "a.txt" "tmp#0" bodyEx)).2
+example : (exec {} Plan.clean 0 { fs := fsEx } (inplaceOps false "a.txt" "a.txt" "tmp#0" bodyEx)).1 = .ok ∧
+    final fsEx (exec {} Plan.clean 0 { fs := fsEx } (inplaceOps false "a.txt" "a.txt" "tmp#0" bodyEx)).2
       = [("a.txt", "XY"), ("b.txt", "BB")] := by
   decide +kernel
 
 /-- **kill_leaves_src_whole.** If the process is killed at any operation, the directory is the
     original one, possibly with the temp entry in addition; the source holds its original bytes. -/
-theorem kill_leaves_src_whole {fs0 : Fs} {src tmp orig : String} {body : List Op}
-    (wf : WF fs0 src tmp body) (ho : fs0.get? src = some orig) (cfg : Cfg) (plan : Plan) (i j : Nat)
-    (hk : (exec cfg plan i { fs := fs0 } (inplaceOps src tmp body)).1 = .killed j) :
-    let fin := final fs0 (exec cfg plan i { fs := fs0 } (inplaceOps src tmp body)).2
+theorem kill_leaves_src_whole {fs0 : Fs} {src dst tmp orig : String} {body : List Op} (early : Bool)
+    (wf : WF fs0 src dst tmp body) (ho : fs0.get? src = some orig) (cfg : Cfg) (plan : Plan) (i j : Nat)
+    (hk : (exec cfg plan i { fs := fs0 } (inplaceOps early src dst tmp body)).1 = .killed j) :
+    let fin := final fs0 (exec cfg plan i { fs := fs0 } (inplaceOps early src dst tmp body)).2
     (fin = fs0 ∨ ∃ c, fin = fs0 ++ [(tmp, c)]) ∧ fin.get? src = some orig := by
-  have P := exec_inplace (cfg := cfg) (plan := plan) body wf.bodyOps wf.tmpFresh wf.srcExists i
+  have P := exec_inplace (dst := dst) (cfg := cfg) (plan := plan) early body wf.bodyOps wf.tmpFresh wf.srcExists i
   have h := P.killed j hk
   simp only []
   refine ⟨h, ?_⟩
@@ -119,41 +247,83 @@ theorem kill_leaves_src_whole {fs0 : Fs} {src tmp orig : String} {body : List Op
   · rw [h, ho]
   · rw [h, Fs.get?_append_other wf.ne, ho]
 
-example : (exec {} (Plan.single 8 .kill) 0 { fs := fsEx } (inplaceOps "a.txt" "tmp#0" bodyEx)).1 = .killed 8 ∧
-    final fsEx (exec {} (Plan.single 8 .kill) 0 { fs := fsEx } (inplaceOps "a.txt" "tmp#0" bodyEx)).2
+example : (exec {} (Plan.single 8 .kill) 0 { fs := fsEx } (inplaceOps false "a.txt" "a.txt" "tmp#0" bodyEx)).1 = .killed 8 ∧
+    final fsEx (exec {} (Plan.single 8 .kill) 0 { fs := fsEx } (inplaceOps false "a.txt" "a.txt" "tmp#0" bodyEx)).2
       = fsEx ++ [("tmp#0", "XY")] := by
   decide +kernel
 
-/-- **unmatched_untouched** (one file). Every path other than the source and the temp name holds,
-    at every prefix and under every fault plan, exactly what it held before. -/
-theorem unmatched_untouched {fs0 : Fs} {src tmp : String} {body : List Op}
-    (wf : WF fs0 src tmp body) (cfg : Cfg) (plan : Plan) (i : Nat) (p : String)
-    (hps : p ≠ src) (hpt : p ≠ tmp) :
-    ∀ ev ∈ (exec cfg plan i { fs := fs0 } (inplaceOps src tmp body)).2, ev.2.get? p = fs0.get? p := by
+/-- **unmatched_untouched** (one file). Every path other than the entry the in path names and the temp name
+    holds, at every prefix and under every fault plan, exactly what it held before. -/
+theorem unmatched_untouched {fs0 : Fs} {src dst tmp : String} {body : List Op} (early : Bool)
+    (wf : WF fs0 src dst tmp body) (cfg : Cfg) (plan : Plan) (i : Nat) (p : String)
+    (hps : p ≠ dst) (hpt : p ≠ tmp) :
+    ∀ ev ∈ (exec cfg plan i { fs := fs0 } (inplaceOps early src dst tmp body)).2, ev.2.get? p = fs0.get? p := by
   intro ev hm
-  have P := exec_inplace (cfg := cfg) (plan := plan) body wf.bodyOps wf.tmpFresh wf.srcExists i
+  have P := exec_inplace (dst := dst) (cfg := cfg) (plan := plan) early body wf.bodyOps wf.tmpFresh wf.srcExists i
   rcases P.shape ev hm with hab | ⟨_, hc⟩
   · rcases hab with h | ⟨c, h⟩
     · rw [h]
     · rw [h, Fs.get?_append_other hpt]
   · rw [hc, Fs.get?_set_other hps]
 
+/-- **symlink_in_replaces_link.** The in path's last component is a symlink (`dst` = the link's entry, not a
+    regular file of the directory; `src` = its target): `open(in_path)` reads the target, the temp file is
+    made next to the link, and `os.replace` replaces the LINK. Under every fault plan and at every prefix:
+    the target keeps its original bytes throughout; until the successful `replace` there is no regular file
+    at the link's entry (the path still reads the target: the complete original), after it the entry is a
+    regular file holding the complete new content (the path reads the complete new content) — so the
+    path is all-or-nothing, but it is the link that is rewritten: the target is never edited, and a run
+    that ends ok has turned the link into a file (`fs0 ++ [(dst, new)]`). -/
+theorem symlink_in_replaces_link {fs0 : Fs} {src dst tmp orig : String} {body : List Op} (early : Bool)
+    (wf : WF fs0 src dst tmp body) (ho : fs0.get? src = some orig) (hlink : fs0.get? dst = none)
+    (cfg : Cfg) (plan : Plan) (i : Nat) :
+    (∀ ev ∈ (exec cfg plan i { fs := fs0 } (inplaceOps early src dst tmp body)).2,
+      ev.2.get? src = some orig ∧
+      (ev.2.get? dst = none ∨ (ev.1 = "replace" ∧ ev.2 = fs0 ++ [(dst, newContent body)]))) ∧
+    ((exec cfg plan i { fs := fs0 } (inplaceOps early src dst tmp body)).1 = .ok →
+      final fs0 (exec cfg plan i { fs := fs0 } (inplaceOps early src dst tmp body)).2
+        = fs0 ++ [(dst, newContent body)]) := by
+  have P := exec_inplace (dst := dst) (cfg := cfg) (plan := plan) early body wf.bodyOps wf.tmpFresh wf.srcExists i
+  have hsd : src ≠ dst := by
+    intro h; rw [h, hlink] at ho; cases ho
+  have hset : fs0.set dst (newContent body) = fs0 ++ [(dst, newContent body)] := Fs.set_fresh hlink
+  refine ⟨?_, fun hok => by rw [P.ok hok, hset]⟩
+  intro ev hm
+  rcases P.shape ev hm with hab | ⟨hl, hc⟩
+  · rcases hab with h | ⟨c, h⟩
+    · rw [h]; exact ⟨ho, Or.inl hlink⟩
+    · rw [h, Fs.get?_append_other wf.ne, Fs.get?_append_other wf.dstNeTmp]; exact ⟨ho, Or.inl hlink⟩
+  · rw [hc, hset]
+    exact ⟨by rw [Fs.get?_append_other hsd]; exact ho, Or.inr ⟨hl, rfl⟩⟩
+
+/-- ln.txt is a symlink to a.txt (not a regular file: not in the directory state); `in: ln.txt`. -/
+private theorem wfLn : WF fsEx "a.txt" "ln.txt" "tmp#0" bodyEx where
+  srcExists := by decide +kernel
+  tmpFresh := by decide +kernel
+  bodyOps := by decide +kernel
+  dstOk := Or.inr (by decide +kernel)
+  dstNeTmp := by decide
+
+example : final fsEx (exec {} Plan.clean 0 { fs := fsEx } (inplaceOps false "a.txt" "ln.txt" "tmp#0" bodyEx)).2
+    = [("a.txt", "AA"), ("b.txt", "BB"), ("ln.txt", "XY")] := by decide +kernel
+
 /-- **out_equal_in_is_inplace.** `in_to_out(in, out)` with `out` naming the same existing file
     performs exactly the operation list of `in_to_out(in)`: the temp-then-replace route (so every
     theorem above applies to it). -/
-theorem out_equal_in_is_inplace (fs : Fs) (src tmp : String) (body : List Op)
+theorem out_equal_in_is_inplace (fs : Fs) (early : Bool) (src tmp : String) (body : List Op)
     (hs : (fs.get? src).isSome) :
-    jobOps fs { src := src, out := some src, tmp := tmp, body := body } = inplaceOps src tmp body ∧
-    jobOps fs { src := src, out := some src, tmp := tmp, body := body }
-      = jobOps fs { src := src, out := none, tmp := tmp, body := body } := by
-  have h1 := jobOps_inplace fs { src := src, out := some src, tmp := tmp, body := body } hs (Or.inr rfl)
-  have h2 := jobOps_inplace fs { src := src, out := none, tmp := tmp, body := body } hs (Or.inl rfl)
+    jobOps fs { src := src, out := some src, tmp := tmp, body := body, early := early }
+      = inplaceOps early src src tmp body ∧
+    jobOps fs { src := src, out := some src, tmp := tmp, body := body, early := early }
+      = jobOps fs { src := src, out := none, tmp := tmp, body := body, early := early } := by
+  have h1 := jobOps_inplace fs { src := src, out := some src, tmp := tmp, body := body, early := early } hs (Or.inr rfl)
+  have h2 := jobOps_inplace fs { src := src, out := none, tmp := tmp, body := body, early := early } hs (Or.inl rfl)
   exact ⟨h1, h1.trans h2.symm⟩
 
 /-- Why the same-file detection matters (witness): writing straight to the source (the direct
     route with out = in) and failing at the second write leaves a truncated source. -/
 theorem direct_route_not_atomic :
-    final fsEx (exec {} (Plan.single 6 .raise) 0 { fs := fsEx } (directOps "a.txt" "a.txt" bodyEx)).2
+    final fsEx (exec {} (Plan.single 6 .raise) 0 { fs := fsEx } (directOps false "a.txt" "a.txt" bodyEx)).2
       = [("a.txt", "X"), ("b.txt", "BB")] := by
   decide +kernel
 
@@ -162,13 +332,13 @@ theorem direct_route_not_atomic :
     behind: the directory after the raise is not the original one. -/
 theorem temp_leak_pre_fix :
     (exec { cleanupWrite := false } (Plan.single 5 .raise) 0 { fs := fsEx }
-        (inplaceOps "a.txt" "tmp#0" bodyEx)).1 = .raised 5 ∧
+        (inplaceOps false "a.txt" "a.txt" "tmp#0" bodyEx)).1 = .raised 5 ∧
     final fsEx (exec { cleanupWrite := false } (Plan.single 5 .raise) 0 { fs := fsEx }
-        (inplaceOps "a.txt" "tmp#0" bodyEx)).2 = fsEx ++ [("tmp#0", "X")] := by
+        (inplaceOps false "a.txt" "a.txt" "tmp#0" bodyEx)).2 = fsEx ++ [("tmp#0", "X")] := by
   decide +kernel
 
 /-- …and the same plan against the code as it is now leaves the original directory. -/
-example : final fsEx (exec {} (Plan.single 5 .raise) 0 { fs := fsEx } (inplaceOps "a.txt" "tmp#0" bodyEx)).2
+example : final fsEx (exec {} (Plan.single 5 .raise) 0 { fs := fsEx } (inplaceOps false "a.txt" "a.txt" "tmp#0" bodyEx)).2
     = fsEx := by
   decide +kernel
 
@@ -218,9 +388,9 @@ private theorem sameEx_dotdot : SameFile linksEx fsL "a.txt" "sub/../a.txt" :=
 theorem route_inplace_iff_same_inode (l : Links) (fs : Fs) (j : Job) (o : String)
     (ho : j.out = some o) (hne : o ≠ "") :
     (route l fs j = none ↔ isSameFileL l fs j.src j.out = true) ∧
-    (isSameFileL l fs j.src j.out = true → jobOpsL l fs j = inplaceOps j.src j.tmp j.body) ∧
+    (isSameFileL l fs j.src j.out = true → jobOpsL l fs j = inplaceOps j.early j.src j.target j.tmp j.body) ∧
     (isSameFileL l fs j.src j.out = false →
-      jobOpsL l fs j = directOps j.src (l.resolve o) j.body (l.peers (l.resolve o))) := by
+      jobOpsL l fs j = directOps j.early j.src (l.resolve o) j.body (l.peers (l.resolve o))) := by
   refine ⟨?_, ?_, ?_⟩
   · rw [route_none_iff, ho]
     simp [hne]
@@ -231,57 +401,68 @@ theorem route_inplace_iff_same_inode (l : Links) (fs : Fs) (j : Job) (o : String
     vs absolute, `..`, symlink, symlinked directory, hard link: whatever `resolve`/`inoOf` say — the
     operation list is exactly that of `in_to_out(in)` with no out. -/
 theorem same_inode_routes_inplace {l : Links} {fs : Fs} {src o : String} (h : SameFile l fs src o)
-    (tmp : String) (body : List Op) :
-    jobOpsL l fs { src := src, out := some o, tmp := tmp, body := body } = inplaceOps src tmp body ∧
-    jobOpsL l fs { src := src, out := some o, tmp := tmp, body := body }
-      = jobOpsL l fs { src := src, out := none, tmp := tmp, body := body } := by
-  have h1 : jobOpsL l fs { src := src, out := some o, tmp := tmp, body := body } = inplaceOps src tmp body :=
+    (tmp : String) (body : List Op) (early : Bool := false) :
+    jobOpsL l fs { src := src, out := some o, tmp := tmp, body := body, early := early }
+      = inplaceOps early src src tmp body ∧
+    jobOpsL l fs { src := src, out := some o, tmp := tmp, body := body, early := early }
+      = jobOpsL l fs { src := src, out := none, tmp := tmp, body := body, early := early } := by
+  have h1 : jobOpsL l fs { src := src, out := some o, tmp := tmp, body := body, early := early }
+      = inplaceOps early src src tmp body :=
     jobOpsL_of_route_none (route_of_same h.isSame)
-  have h2 : jobOpsL l fs { src := src, out := none, tmp := tmp, body := body } = inplaceOps src tmp body :=
+  have h2 : jobOpsL l fs { src := src, out := none, tmp := tmp, body := body, early := early }
+      = inplaceOps early src src tmp body :=
     jobOpsL_of_route_none (route_of_noout rfl)
   exact ⟨h1, h1.trans h2.symm⟩
 
 example : jobOpsL linksEx fsL { src := "a.txt", out := some "hl.txt", tmp := "tmp#0", body := bodyEx }
-    = inplaceOps "a.txt" "tmp#0" bodyEx := (same_inode_routes_inplace sameEx_hardlink _ _).1
+    = inplaceOps false "a.txt" "a.txt" "tmp#0" bodyEx := (same_inode_routes_inplace sameEx_hardlink _ _).1
 example : jobOpsL linksEx fsL { src := "a.txt", out := some "ln.txt", tmp := "tmp#0", body := bodyEx }
-    = inplaceOps "a.txt" "tmp#0" bodyEx := (same_inode_routes_inplace sameEx_symlink _ _).1
+    = inplaceOps false "a.txt" "a.txt" "tmp#0" bodyEx := (same_inode_routes_inplace sameEx_symlink _ _).1
 example : jobOpsL linksEx fsL { src := "a.txt", out := some "sub/../a.txt", tmp := "tmp#0", body := bodyEx }
-    = inplaceOps "a.txt" "tmp#0" bodyEx := (same_inode_routes_inplace sameEx_dotdot _ _).1
+    = inplaceOps false "a.txt" "a.txt" "tmp#0" bodyEx := (same_inode_routes_inplace sameEx_dotdot _ _).1
 
 /-- **same_file_out_all_or_nothing.** Whenever out names the inode of in — by whatever path — then
     under EVERY fault plan and at EVERY prefix of the run the source entry holds its complete
     original bytes or (only after the successful `replace`) the complete new content; every other
     entry except the temp name — the other hard links of the source included — holds what it held;
-    a run that ends by raising (clean-up not failed too) leaves exactly the original directory; a
-    killed run leaves the original directory plus at most the temp entry; a run that ends ok leaves
-    the same entries with the source new. -/
+    a run that ends by raising — an Exception or a BaseException, the clean-up itself not failed — leaves
+    exactly the original directory, ANY run that ends by raising the original directory plus at most the
+    temp entry; a killed run leaves the original directory plus at most the temp entry; a run that ends ok
+    leaves the same entries with the source new. -/
 theorem same_file_out_all_or_nothing {l : Links} {fs0 : Fs} {src o tmp orig : String} {body : List Op}
-    (h : SameFile l fs0 src o) (wf : WF fs0 src tmp body) (horig : fs0.get? src = some orig)
+    (early : Bool)
+    (h : SameFile l fs0 src o) (wf : WF fs0 src src tmp body) (horig : fs0.get? src = some orig)
     (cfg : Cfg) (plan : Plan) (i : Nat) :
-    let r := runJobL cfg plan i l fs0 { src := src, out := some o, tmp := tmp, body := body }
+    let r := runJobL cfg plan i l fs0 { src := src, out := some o, tmp := tmp, body := body, early := early }
     (∀ ev ∈ r.2, ev.2.get? src = some orig ∨ (ev.1 = "replace" ∧ ev.2.get? src = some (newContent body))) ∧
     (∀ p, p ≠ src → p ≠ tmp → ∀ ev ∈ r.2, ev.2.get? p = fs0.get? p) ∧
-    (∀ j, r.1 = .raised j → cfg.cleanupWrite = true → plan (j + 1) ≠ .raise → final fs0 r.2 = fs0) ∧
+    (∀ j, r.1 = .raised j → cfg = {} → (∀ ev ∈ r.2, ev.1 ≠ "removeTemp!") → final fs0 r.2 = fs0) ∧
+    (∀ j, r.1 = .raised j → final fs0 r.2 = fs0 ∨ ∃ c, final fs0 r.2 = fs0 ++ [(tmp, c)]) ∧
     (∀ j, r.1 = .killed j →
       (final fs0 r.2 = fs0 ∨ ∃ c, final fs0 r.2 = fs0 ++ [(tmp, c)]) ∧ (final fs0 r.2).get? src = some orig) ∧
     (r.1 = .ok → final fs0 r.2 = fs0.set src (newContent body) ∧ (final fs0 r.2).names = fs0.names) := by
-  have hops := (same_inode_routes_inplace h tmp body).1
+  have hops := (same_inode_routes_inplace h tmp body early).1
   simp only [runJobL, hops]
-  have P := exec_inplace (cfg := cfg) (plan := plan) body wf.bodyOps wf.tmpFresh wf.srcExists i
-  refine ⟨src_always_whole wf horig cfg plan i, ?_, ?_, ?_, ?_⟩
+  have P := exec_inplace (dst := src) (cfg := cfg) (plan := plan) early body wf.bodyOps wf.tmpFresh wf.srcExists i
+  refine ⟨src_always_whole early wf horig cfg plan i, ?_, ?_, ?_, ?_, ?_⟩
   · intro p hps hpt
-    exact unmatched_untouched wf cfg plan i p hps hpt
-  · intro j hr hc hp
-    exact P.raised j hr hc hp
+    exact unmatched_untouched early wf cfg plan i p hps hpt
+  · intro j hr hc hrm
+    subst hc
+    exact P.raised j hr rfl rfl rfl hrm
+  · intro j hr
+    exact P.raisedAB j hr
   · intro j hk
-    exact kill_leaves_src_whole wf horig cfg plan i j hk
+    exact kill_leaves_src_whole early wf horig cfg plan i j hk
   · intro hok
-    exact ⟨(success_same_entries wf cfg plan i hok).1, (success_same_entries wf cfg plan i hok).2.1⟩
+    exact ⟨(success_same_entries early wf cfg plan i hok).1, (success_same_entries early wf cfg plan i hok).2.1 rfl⟩
 
-private theorem wfL : WF fsL "a.txt" "tmp#0" bodyEx where
+private theorem wfL : WF fsL "a.txt" "a.txt" "tmp#0" bodyEx where
   srcExists := by decide +kernel
   tmpFresh := by decide +kernel
   bodyOps := by decide +kernel
+  dstOk := Or.inl rfl
+  dstNeTmp := by decide
 
 /-- out = a second hard link of in, the second line fails to format: nothing changed. -/
 example : final fsL (runJobL {} (Plan.single 5 .raise) 0 linksEx fsL
@@ -293,15 +474,16 @@ example : final fsL (runJobL {} (Plan.single 5 .raise) 0 linksEx fsL
     every fault plan and at every prefix every entry that is not a link to out's inode — the source
     first of all (`p := src`) — holds exactly what it held. -/
 theorem other_file_out_never_touches_in (l : Links) (fs0 : Fs) (src o tmp : String) (body : List Op)
+    (early : Bool)
     (hne : o ≠ "") (hcan : l.resolve src = src) (hb : ∀ op ∈ body, op.isBody = true)
     (hdiff : l.sameIno src (l.resolve o) = false)
     (cfg : Cfg) (plan : Plan) (i : Nat) (p : String) (hp : l.sameIno p (l.resolve o) = false) :
-    ∀ ev ∈ (runJobL cfg plan i l fs0 { src := src, out := some o, tmp := tmp, body := body }).2,
+    ∀ ev ∈ (runJobL cfg plan i l fs0 { src := src, out := some o, tmp := tmp, body := body, early := early }).2,
       ev.2.get? p = fs0.get? p := by
   have hns : isSameFileL l fs0 src (some o) = false := by
     simp [isSameFileL, hcan, hdiff]
   have hops := jobOpsL_of_route_some
-    (route_of_not_same (j := { src := src, out := some o, tmp := tmp, body := body }) rfl hne hns)
+    (route_of_not_same (j := { src := src, out := some o, tmp := tmp, body := body, early := early }) rfl hne hns)
   simp only [runJobL, hops]
   have hpo : p ≠ l.resolve o := by
     intro he
@@ -311,7 +493,7 @@ theorem other_file_out_never_touches_in (l : Links) (fs0 : Fs) (src o tmp : Stri
     intro hm
     rw [Links.sameIno_of_mem_peers hm] at hp
     cases hp
-  exact exec_direct_frame cfg plan hpo hpp _ (directOps_directTo src _ body _ hb) i { fs := fs0 }
+  exact exec_direct_frame cfg plan hpo hpp _ (directOps_directTo early src _ body _ hb) i { fs := fs0 }
     ⟨rfl, Or.inl rfl⟩
 
 /-- out = a copy with the same bytes, second write fails: the copy is left half-written (the direct
@@ -328,7 +510,7 @@ example : final fsL (runJobL {} (Plan.single 6 .raise) 0 linksEx fsL
     fails the source holds a fragment that is neither the original nor the new content. The route
     the model (and `os.path.samefile`) takes leaves the source intact under the same plans. -/
 theorem path_identity_is_not_enough :
-    let direct := directOps "a.txt" "hl.txt" bodyEx (linksEx.peers "hl.txt")
+    let direct := directOps false "a.txt" "hl.txt" bodyEx (linksEx.peers "hl.txt")
     linksEx.peers "hl.txt" = ["a.txt"] ∧
     (final fsL (exec {} (Plan.single 3 .raise) 0 { fs := fsL } direct).2).get? "a.txt" = some "" ∧
     (final fsL (exec {} (Plan.single 6 .raise) 0 { fs := fsL } direct).2).get? "a.txt" = some "X" ∧
@@ -338,67 +520,148 @@ theorem path_identity_is_not_enough :
       { src := "a.txt", out := some "hl.txt", tmp := "tmp#0", body := bodyEx }).2).get? "a.txt" = some "AA" := by
   decide +kernel
 
-/-! ### Several files: the loop of `files_in_to_out` (single files, lists, globs) -/
+/-! ### Several files: the loop of `files_in_to_out` (single files, lists, globs)
+
+  `get_glob` chains the per-pattern globs WITHOUT de-duplication (`in: ['*.txt', 'a.txt']` yields a.txt
+  twice), so a file may be rewritten more than once in one run: the later pass reads the result of the
+  earlier one. The theorems below hold for every list of in-place jobs, sources repeated or not. -/
 
 private def jobsEx : List Job :=
   [{ src := "a.txt", tmp := "tmp#0", body := streamBody 1 ["X", "Y"] },
-   { src := "b.txt", out := some "b.txt", tmp := "tmp#1", body := objectBody ["Z"] }]
+   { src := "b.txt", out := some "b.txt", tmp := "tmp#1", body := objectBody ["Z"], early := true }]
 
 private theorem jobsWfEx : JobsWF fsEx jobsEx where
   srcExists := by decide +kernel
   tmpFresh := by decide +kernel
   bodyOps := by decide +kernel
   inplace := by decide +kernel
+  noLink := by decide +kernel
 
 /-- **src_always_whole / unmatched_untouched for a whole run.** At every prefix of a multi-file
     run, under every fault plan, every path that is not a temp name holds what it held originally,
-    or it is a matched source holding its complete new content. -/
+    or it is a matched source holding the complete new content of one of its rewrites. -/
 theorem src_always_whole_files {fs0 : Fs} {J : List Job} (wf : JobsWF fs0 J)
-    (hnd : (J.map (·.src)).Nodup) (cfg : Cfg) (plan : Plan) (i : Nat) :
+    (cfg : Cfg) (plan : Plan) (i : Nat) :
     ∀ ev ∈ (runJobs cfg plan i fs0 J).2, ∀ p, (∀ j ∈ J, p ≠ j.tmp) →
       ev.2.get? p = fs0.get? p ∨ ∃ j ∈ J, p = j.src ∧ ev.2.get? p = some (newContent j.body) := by
   intro ev hm
-  have M := runJobs_post cfg plan wf J (fun _ h => h) hnd i fs0 (fun p _ => Or.inl rfl) rfl
+  have M := runJobs_post cfg plan wf J (fun _ h => h) i fs0 (fun p _ => Or.inl rfl) rfl
   exact M.whole ev hm
+
+/-- **duplicate_source_whole.** `in` matches one file twice (`in: ['*.txt', 'a.txt']`): two in-place jobs
+    with the same source; the second pass's "original" is the first pass's result. At every prefix of the
+    run, under every fault plan, the source holds its complete original bytes, the complete result of the
+    first pass or the complete result of the second — never anything else; a run that ends ok leaves the
+    second result. -/
+theorem duplicate_source_whole {fs0 : Fs} {j1 j2 : Job} {orig : String} (wf : JobsWF fs0 [j1, j2])
+    (hsame : j2.src = j1.src) (ho : fs0.get? j1.src = some orig) (cfg : Cfg) (plan : Plan) (i : Nat) :
+    (∀ ev ∈ (runJobs cfg plan i fs0 [j1, j2]).2,
+      ev.2.get? j1.src = some orig ∨ ev.2.get? j1.src = some (newContent j1.body) ∨
+        ev.2.get? j1.src = some (newContent j2.body)) ∧
+    ((runJobs cfg plan i fs0 [j1, j2]).1 = .ok →
+      (final fs0 (runJobs cfg plan i fs0 [j1, j2]).2).get? j1.src = some (newContent j2.body)) := by
+  have M := runJobs_post cfg plan wf [j1, j2] (fun _ h => h) i fs0 (fun p _ => Or.inl rfl) rfl
+  have hne : ∀ j ∈ [j1, j2], j1.src ≠ j.tmp := by
+    intro j hj he
+    have h1 := wf.srcExists j1 (by simp)
+    rw [he, wf.tmpFresh j hj] at h1
+    cases h1
+  constructor
+  · intro ev hm
+    rcases M.whole ev hm j1.src hne with h | ⟨j, hj, hs, h⟩
+    · left; rw [h, ho]
+    · simp only [List.mem_cons, List.mem_nil_iff, or_false] at hj
+      rcases hj with rfl | rfl
+      · right; left; exact h
+      · right; right; exact h
+  · intro hok
+    have hl : lastJob [j1, j2] j1.src = some j2 := by
+      simp [lastJob, hsame]
+    exact (M.ok hok).2 j1.src j2 hl
+
+private def fsDup : Fs := [("a.txt", "{k}"), ("b.txt", "BB")]
+/-- a.txt matched twice; what the second pass writes is computed from the first pass's result. -/
+private def jobsDup : List Job :=
+  [{ src := "a.txt", tmp := "tmp#0", body := streamBody 1 ["N1"] },
+   { src := "a.txt", tmp := "tmp#1", body := streamBody 1 ["N2"] }]
+
+example : JobsWF fsDup jobsDup where
+  srcExists := by decide +kernel
+  tmpFresh := by decide +kernel
+  bodyOps := by decide +kernel
+  inplace := by decide +kernel
+  noLink := by decide +kernel
+
+/-- killed while the second pass writes: the source holds the complete result of the FIRST pass. -/
+example : (runJobs {} (Plan.single 13 .kill) 0 fsDup jobsDup).1 = .killed 13 ∧
+    final fsDup (runJobs {} (Plan.single 13 .kill) 0 fsDup jobsDup).2
+      = [("a.txt", "N1"), ("b.txt", "BB"), ("tmp#1", "N2")] := by
+  decide +kernel
 
 /-- **unmatched_untouched.** Files not matched by `in` (and not temp names) are byte-identical at
     every prefix of the run, under every fault plan. -/
 theorem unmatched_untouched_files {fs0 : Fs} {J : List Job} (wf : JobsWF fs0 J)
-    (hnd : (J.map (·.src)).Nodup) (cfg : Cfg) (plan : Plan) (i : Nat) (p : String)
+    (cfg : Cfg) (plan : Plan) (i : Nat) (p : String)
     (hps : ∀ j ∈ J, p ≠ j.src) (hpt : ∀ j ∈ J, p ≠ j.tmp) :
     ∀ ev ∈ (runJobs cfg plan i fs0 J).2, ev.2.get? p = fs0.get? p := by
-  have M := runJobs_post cfg plan wf J (fun _ h => h) hnd i fs0 (fun p _ => Or.inl rfl) rfl
+  have M := runJobs_post cfg plan wf J (fun _ h => h) i fs0 (fun p _ => Or.inl rfl) rfl
   exact M.frame p hps hpt
 
-/-- **raise_leaves_no_temp** for a run over several files: exactly the original entries remain. -/
+/-- **raise_leaves_no_temp** for a run over several files: exactly the original entries remain, whatever
+    raised (Exception or BaseException, at whichever operation of whichever file), the clean-up itself not
+    failed. -/
 theorem raise_leaves_no_temp_files {fs0 : Fs} {J : List Job} (wf : JobsWF fs0 J)
-    (hnd : (J.map (·.src)).Nodup) (plan : Plan) (i j : Nat)
-    (hr : (runJobs {} plan i fs0 J).1 = .raised j) (hclean : plan (j + 1) ≠ .raise) :
+    (plan : Plan) (i j : Nat)
+    (hr : (runJobs {} plan i fs0 J).1 = .raised j)
+    (hrm : ∀ ev ∈ (runJobs {} plan i fs0 J).2, ev.1 ≠ "removeTemp!") :
     (final fs0 (runJobs {} plan i fs0 J).2).names = fs0.names := by
-  have M := runJobs_post {} plan wf J (fun _ h => h) hnd i fs0 (fun p _ => Or.inl rfl) rfl
-  exact M.raised j hr rfl hclean
+  have M := runJobs_post {} plan wf J (fun _ h => h) i fs0 (fun p _ => Or.inl rfl) rfl
+  exact M.raised j hr rfl rfl rfl hrm
 
-/-- **success_same_entries** for a run over several files: same entries, every source new. -/
+/-- A failed clean-up takes two adjacent raising faults, in a run over several files too. -/
+theorem no_failed_cleanup_of_plan {fs0 : Fs} {J : List Job} (wf : JobsWF fs0 J) (cfg : Cfg)
+    (plan : Plan) (hplan : ∀ k, ¬ TwoFaults plan k) (i : Nat) :
+    ∀ ev ∈ (runJobs cfg plan i fs0 J).2, ev.1 ≠ "removeTemp!" := by
+  have M := runJobs_post cfg plan wf J (fun _ h => h) i fs0 (fun p _ => Or.inl rfl) rfl
+  intro ev hm he
+  obtain ⟨k, hk⟩ := M.rmNeeds2 ev hm he
+  exact hplan k hk
+
+/-- **raise_leaves_temp_or_nothing** for a run over several files: however the run came to raise, at most
+    one temp entry is extra (and by `src_always_whole_files` every source is whole). -/
+theorem raise_leaves_temp_or_nothing_files {fs0 : Fs} {J : List Job} (wf : JobsWF fs0 J)
+    (cfg : Cfg) (plan : Plan) (i j : Nat) (hr : (runJobs cfg plan i fs0 J).1 = .raised j) :
+    (final fs0 (runJobs cfg plan i fs0 J).2).names = fs0.names ∨
+    ∃ jb ∈ J, (final fs0 (runJobs cfg plan i fs0 J).2).names = fs0.names ++ [jb.tmp] := by
+  have M := runJobs_post cfg plan wf J (fun _ h => h) i fs0 (fun p _ => Or.inl rfl) rfl
+  exact M.raisedNames j hr
+
+/-- **success_same_entries** for a run over several files: same entries, every source holds the new
+    content of its LAST rewrite. -/
 theorem success_same_entries_files {fs0 : Fs} {J : List Job} (wf : JobsWF fs0 J)
-    (hnd : (J.map (·.src)).Nodup) (cfg : Cfg) (plan : Plan) (i : Nat)
+    (cfg : Cfg) (plan : Plan) (i : Nat)
     (hok : (runJobs cfg plan i fs0 J).1 = .ok) :
     (final fs0 (runJobs cfg plan i fs0 J).2).names = fs0.names ∧
-    ∀ j ∈ J, (final fs0 (runJobs cfg plan i fs0 J).2).get? j.src = some (newContent j.body) := by
-  have M := runJobs_post cfg plan wf J (fun _ h => h) hnd i fs0 (fun p _ => Or.inl rfl) rfl
-  exact M.ok hok
+    (∀ p j, lastJob J p = some j → (final fs0 (runJobs cfg plan i fs0 J).2).get? p = some (newContent j.body)) ∧
+    ((J.map (·.src)).Nodup →
+      ∀ j ∈ J, (final fs0 (runJobs cfg plan i fs0 J).2).get? j.src = some (newContent j.body)) := by
+  have M := runJobs_post cfg plan wf J (fun _ h => h) i fs0 (fun p _ => Or.inl rfl) rfl
+  exact ⟨(M.ok hok).1, (M.ok hok).2, fun hnd j hj => (M.ok hok).2 j.src j (lastJob_of_nodup hnd hj)⟩
 
 /-- **kill_leaves_src_whole** for a run over several files: after a kill at most one `tmp` entry
     is extra (and by `src_always_whole_files` every source is whole). -/
 theorem kill_leaves_src_whole_files {fs0 : Fs} {J : List Job} (wf : JobsWF fs0 J)
-    (hnd : (J.map (·.src)).Nodup) (cfg : Cfg) (plan : Plan) (i j : Nat)
+    (cfg : Cfg) (plan : Plan) (i j : Nat)
     (hk : (runJobs cfg plan i fs0 J).1 = .killed j) :
     (final fs0 (runJobs cfg plan i fs0 J).2).names = fs0.names ∨
     ∃ jb ∈ J, (final fs0 (runJobs cfg plan i fs0 J).2).names = fs0.names ++ [jb.tmp] := by
-  have M := runJobs_post cfg plan wf J (fun _ h => h) hnd i fs0 (fun p _ => Or.inl rfl) rfl
+  have M := runJobs_post cfg plan wf J (fun _ h => h) i fs0 (fun p _ => Or.inl rfl) rfl
   exact M.killed j hk
 
-example : (runJobs {} (Plan.single 14 .kill) 0 fsEx jobsEx).1 = .killed 14 ∧
-    final fsEx (runJobs {} (Plan.single 14 .kill) 0 fsEx jobsEx).2
+/-- job 1 (stream, 10 operations 0..9) done; job 2 (object: 10 sameFile, 11 openRead, 12 closeIn, 13 mkTemp,
+    14 fmt, 15 write Z, 16 close, 17 replace) killed at its close. -/
+example : (runJobs {} (Plan.single 16 .kill) 0 fsEx jobsEx).1 = .killed 16 ∧
+    final fsEx (runJobs {} (Plan.single 16 .kill) 0 fsEx jobsEx).2
       = [("a.txt", "XY"), ("b.txt", "BB"), ("tmp#1", "Z")] := by
   decide +kernel
 
@@ -415,11 +678,12 @@ theorem files_out_alias_is_no_out {fs0 : Fs} {J : List Job} (l : Links)
   runJobsL_eq_runJobs cfg plan J
     (fun j hj => wf.srcExists j.noOut (List.mem_map_of_mem hj))
     (fun j hj => wf.tmpFresh j.noOut (List.mem_map_of_mem hj))
-    (fun j hj => wf.bodyOps j.noOut (List.mem_map_of_mem hj)) i l fs0 rfl hpa
+    (fun j hj => wf.bodyOps j.noOut (List.mem_map_of_mem hj))
+    (fun j hj => wf.noLink j.noOut (List.mem_map_of_mem hj)) i l fs0 rfl hpa
 
 private def jobsLEx : List Job :=
   [{ src := "a.txt", out := some "ln.txt", tmp := "tmp#0", body := streamBody 1 ["X", "Y"] },
-   { src := "b.txt", tmp := "tmp#1", body := objectBody ["Z"] }]
+   { src := "b.txt", tmp := "tmp#1", body := objectBody ["Z"], early := true }]
 
 example : ∀ j ∈ jobsLEx, PathAlias linksEx j := by
   intro j hj
@@ -427,6 +691,64 @@ example : ∀ j ∈ jobsLEx, PathAlias linksEx j := by
   rcases hj with rfl | rfl
   · exact Or.inr ⟨"ln.txt", rfl, by decide +kernel, by decide +kernel, by decide⟩
   · exact Or.inl rfl
+
+/-! ### Mixed runs: some jobs in place, others written to another file
+
+  `in: ['d1/a', 'd2/a'], out: 'd1/'`: for d1/a the out path `d1/a` is the in file itself — an in-place edit —
+  while d2/a is written straight onto `d1/a`, the source the first job has just rewritten. -/
+
+/-- **mixed_run_sources_whole.** A run over several files (`runJobsL`: routes decided on inodes, the link
+    table threaded through) in which every job is either in place (out absent or a spelling of its own source
+    entry) or writes to an entry that is NO job's source and no temp name, in a tree without hard links:
+    at every prefix, under every fault plan, every path that is neither a temp name nor the target of a direct
+    write holds what it held originally, or it is the source of an in-place job holding that job's complete new
+    content. In particular the sources of the in-place jobs are whole at every instant whatever the direct
+    writes do to their own targets, and unmatched files are untouched. -/
+theorem mixed_run_sources_whole {l : Links} {fs0 : Fs} {J : List Job} (wf : MixedWF l fs0 J)
+    (cfg : Cfg) (plan : Plan) (i : Nat) :
+    ∀ ev ∈ (runJobsL cfg plan i l fs0 J).2, ∀ p, (∀ j ∈ J, p ≠ j.tmp) → ¬ IsOut l J p →
+      ev.2.get? p = fs0.get? p ∨
+        ∃ j ∈ J, PathAlias l j ∧ p = j.src ∧ ev.2.get? p = some (newContent j.body) :=
+  fun ev hm => runJobsL_wholeM wf cfg plan J (fun _ h => h) i l fs0
+    { inj := wf.inj, res := fun _ => rfl, srcs := wf.srcExists, tmps := wf.tmpFresh,
+      whole := fun _ _ _ => Or.inl rfl } ev hm
+
+private def fsMix : Fs := [("d1/a", "AA"), ("d2/a", "BB"), ("od/keep", "K")]
+/-- `in: ['d1/a', 'd2/a'], out: 'od/'` … -/
+private def jobsMixOk : List Job :=
+  [{ src := "d1/a", out := some "d1/a", tmp := "d1/tmp#0", body := streamBody 1 ["X", "Y"] },
+   { src := "d2/a", out := some "od/a", tmp := "d2/tmp#1", body := streamBody 1 ["P", "Q"] }]
+/-- … and `in: ['d1/a', 'd2/a'], out: 'd1/'`. -/
+private def jobsMixBad : List Job :=
+  [{ src := "d1/a", out := some "d1/a", tmp := "d1/tmp#0", body := streamBody 1 ["X", "Y"] },
+   { src := "d2/a", out := some "d1/a", tmp := "d2/tmp#1", body := streamBody 1 ["P", "Q"] }]
+
+example : MixedWF {} fsMix jobsMixOk where
+  srcExists := by decide +kernel
+  tmpFresh := by decide +kernel
+  bodyOps := by decide +kernel
+  noLink := by decide +kernel
+  srcCanon := by decide +kernel
+  inj := by intro p q n h; simp [Links.inoOf] at h
+  kind := by
+    intro j hj
+    simp only [jobsMixOk, List.mem_cons, List.mem_nil_iff, or_false] at hj
+    rcases hj with rfl | rfl
+    · exact Or.inl (Or.inr ⟨"d1/a", rfl, rfl, rfl, by decide⟩)
+    · exact Or.inr ⟨"od/a", rfl, by decide, by decide +kernel, by decide +kernel⟩
+
+/-- **direct_out_onto_source_destroys_it** (witness: the hypothesis of `mixed_run_sources_whole` is needed).
+    `in: ['d1/a', 'd2/a'], out: 'd1/'`: job 1 edits d1/a in place (ok: d1/a = "XY"); job 2 then takes the direct
+    route onto d1/a (`open(out, 'w')` truncates it). If its second line fails to format, d1/a is left holding
+    "P": neither its original bytes, nor its own complete new content, nor job 2's complete output — and the
+    run has ended by raising. -/
+theorem direct_out_onto_source_destroys_it :
+    route {} fsMix jobsMixBad[0] = none ∧
+    route {} [("d1/a", "XY"), ("d2/a", "BB"), ("od/keep", "K")] jobsMixBad[1] = some "d1/a" ∧
+    (runJobsL {} (Plan.single 15 .raise) 0 {} fsMix jobsMixBad).1 = .raised 15 ∧
+    final fsMix (runJobsL {} (Plan.single 15 .raise) 0 {} fsMix jobsMixBad).2
+      = [("d1/a", "P"), ("d2/a", "BB"), ("od/keep", "K")] := by
+  decide +kernel
 
 /-! ### The `out` option of the step: absent, `None` and `''` all mean "edit in place"
 
@@ -516,6 +838,7 @@ example : JobsWF fsCwd (jobsCwd.map Job.noOut) where
   tmpFresh := by decide +kernel
   bodyOps := by decide +kernel
   inplace := by decide +kernel
+  noLink := by decide +kernel
 
 /-- **empty_out_read_as_a_path_hits_bystander** (witness: why the tests must be truthiness tests).
     Were `out: ''` read as the path `Path('')` — the working directory, an existing directory — the
@@ -546,62 +869,107 @@ example : runFiles {} Plan.clean 0 {} fsEx (some "out.txt") false 2 jobsEx = (.r
     (directory before, directory after, matched sources with their new contents, how the run ended):
     every source whole; after success every source new; no extra entry after ok/raise and only
     `tmp#` entries extra after a kill; nothing missing; unmatched files identical — is satisfied by
-    the model's final directory for every job list and every fault plan in which a raise is not
-    immediately followed by a second raise (i.e. the clean-up's own `os.remove` is not failed too).
+    the model's final directory (the code as it is now) for every list of in-place jobs (sources may repeat)
+    and every fault plan — Exceptions, BaseExceptions, kills, failing closes of either file, in any number —
+    under which the clean-up itself does not fail (no `removeTemp!` event; by `no_failed_cleanup_of_plan`:
+    every plan without two adjacent raising faults). With a failing clean-up: `model_holds_C15_dirty`.
     The correspondence harness evaluates the same `judge` on the IMPLEMENTATION's directories. -/
-theorem model_holds_C15 {fs0 : Fs} {J : List Job} (wf : JobsWF fs0 J) (hnd : (J.map (·.src)).Nodup)
+theorem model_holds_C15 {fs0 : Fs} {J : List Job} (wf : JobsWF fs0 J)
     (hnames : fs0.names.Nodup) (htmp : ∀ j ∈ J, isTempName j.tmp = true)
-    (plan : Plan) (hplan : ∀ i, plan i = .raise → plan (i + 1) ≠ .raise) (i : Nat) :
+    (plan : Plan) (i : Nat) (hrm : ∀ ev ∈ (runJobs {} plan i fs0 J).2, ev.1 ≠ "removeTemp!") :
     (judge fs0 (final fs0 (runJobs {} plan i fs0 J).2)
       (J.map fun j => (j.src, newContent j.body)) (runJobs {} plan i fs0 J).1.toEnd).holds = true :=
-  judge_model wf hnd hnames htmp plan hplan i
+  judge_model wf hnames htmp plan i hrm
+
+/-- … in particular under every plan without two adjacent raising faults. -/
+theorem model_holds_C15_of_plan {fs0 : Fs} {J : List Job} (wf : JobsWF fs0 J)
+    (hnames : fs0.names.Nodup) (htmp : ∀ j ∈ J, isTempName j.tmp = true)
+    (plan : Plan) (hplan : ∀ k, ¬ TwoFaults plan k) (i : Nat) :
+    (judge fs0 (final fs0 (runJobs {} plan i fs0 J).2)
+      (J.map fun j => (j.src, newContent j.body)) (runJobs {} plan i fs0 J).1.toEnd).holds = true :=
+  model_holds_C15 wf hnames htmp plan i (no_failed_cleanup_of_plan wf {} plan hplan i)
+
+/-- **model_holds_C15_dirty.** Under EVERY fault plan — a clean-up whose `os.remove` fails too included — and
+    every `except` arrangement (the code now and the earlier ones), the model's final directory satisfies
+    every clause of the monitor except "no temporary file left behind": every source whole, after success
+    every source new, nothing missing, unmatched files identical, and the ONLY extra entries are temp files. -/
+theorem model_holds_C15_dirty {fs0 : Fs} {J : List Job} (wf : JobsWF fs0 J)
+    (hnames : fs0.names.Nodup) (htmp : ∀ j ∈ J, isTempName j.tmp = true)
+    (cfg : Cfg) (plan : Plan) (i : Nat) :
+    (judge fs0 (final fs0 (runJobs cfg plan i fs0 J).2)
+      (J.map fun j => (j.src, newContent j.body)) (runJobs cfg plan i fs0 J).1.toEnd).holdsDirty = true :=
+  judge_model_dirty wf hnames htmp cfg plan i
 
 /-- **model_holds_C15_links.** The same for the loop that decides same-file-ness on inodes
     (`runJobsL`, what the driver runs), for every link table under which every out is absent or a
     spelling of its source entry. -/
 theorem model_holds_C15_links {fs0 : Fs} {J : List Job} (l : Links)
     (wf : JobsWF fs0 (J.map Job.noOut)) (hpa : ∀ j ∈ J, PathAlias l j)
-    (hnd : (J.map (·.src)).Nodup) (hnames : fs0.names.Nodup) (htmp : ∀ j ∈ J, isTempName j.tmp = true)
-    (plan : Plan) (hplan : ∀ i, plan i = .raise → plan (i + 1) ≠ .raise) (i : Nat) :
+    (hnames : fs0.names.Nodup) (htmp : ∀ j ∈ J, isTempName j.tmp = true)
+    (plan : Plan) (i : Nat) (hrm : ∀ ev ∈ (runJobsL {} plan i l fs0 J).2, ev.1 ≠ "removeTemp!") :
     (judge fs0 (final fs0 (runJobsL {} plan i l fs0 J).2)
-      (J.map fun j => (j.src, newContent j.body)) (runJobsL {} plan i l fs0 J).1.toEnd).holds = true := by
-  rw [files_out_alias_is_no_out l wf hpa]
-  have hnd' : ((J.map Job.noOut).map (·.src)).Nodup := by
-    rw [List.map_map]; exact hnd
+      (J.map fun j => (j.src, newContent j.body)) (runJobsL {} plan i l fs0 J).1.toEnd).holds = true ∧
+    ∀ (cfg : Cfg) (plan' : Plan), (judge fs0 (final fs0 (runJobsL cfg plan' i l fs0 J).2)
+      (J.map fun j => (j.src, newContent j.body)) (runJobsL cfg plan' i l fs0 J).1.toEnd).holdsDirty = true := by
   have htmp' : ∀ j ∈ J.map Job.noOut, isTempName j.tmp = true := by
     intro j hj
     obtain ⟨j0, hj0, rfl⟩ := List.mem_map.mp hj
     exact htmp j0 hj0
-  have := model_holds_C15 wf hnd' hnames htmp' plan hplan i
-  rw [List.map_map] at this
-  exact this
+  constructor
+  · rw [files_out_alias_is_no_out l wf hpa] at hrm ⊢
+    have := model_holds_C15 wf hnames htmp' plan i hrm
+    rw [List.map_map] at this
+    exact this
+  · intro cfg plan'
+    rw [files_out_alias_is_no_out l wf hpa]
+    have := model_holds_C15_dirty wf hnames htmp' cfg plan' i
+    rw [List.map_map] at this
+    exact this
 
 /-- **model_holds_C15_files.** The monitor holds of the model's final directory for the whole
     `files_in_to_out` call whenever out is absent/None/'' . -/
 theorem model_holds_C15_files {fs0 : Fs} {J : List Job} (l : Links) (out : Option String)
     (hout : out = none ∨ out = some "") (isDir : Bool) (nIn : Nat)
     (wf : JobsWF fs0 (J.map Job.noOut))
-    (hnd : (J.map (·.src)).Nodup) (hnames : fs0.names.Nodup) (htmp : ∀ j ∈ J, isTempName j.tmp = true)
-    (plan : Plan) (hplan : ∀ i, plan i = .raise → plan (i + 1) ≠ .raise) (i : Nat) :
+    (hnames : fs0.names.Nodup) (htmp : ∀ j ∈ J, isTempName j.tmp = true)
+    (plan : Plan) (i : Nat)
+    (hrm : ∀ ev ∈ (runFiles {} plan i l fs0 out isDir nIn J).2, ev.1 ≠ "removeTemp!") :
     (judge fs0 (final fs0 (runFiles {} plan i l fs0 out isDir nIn J).2)
       (J.map fun j => (j.src, newContent j.body)) (runFiles {} plan i l fs0 out isDir nIn J).1.toEnd).holds
       = true := by
-  rw [falsy_out_is_no_out l out hout isDir nIn wf]
-  have hnd' : ((J.map Job.noOut).map (·.src)).Nodup := by
-    rw [List.map_map]; exact hnd
+  rw [falsy_out_is_no_out l out hout isDir nIn wf] at hrm ⊢
   have htmp' : ∀ j ∈ J.map Job.noOut, isTempName j.tmp = true := by
     intro j hj
     obtain ⟨j0, hj0, rfl⟩ := List.mem_map.mp hj
     exact htmp j0 hj0
-  have := model_holds_C15 wf hnd' hnames htmp' plan hplan i
+  have := model_holds_C15 wf hnames htmp' plan i hrm
   rw [List.map_map] at this
   exact this
 
-/-- The monitor is not vacuous: it rejects the pre-fix leftover and a truncated source. -/
+/-- The hypotheses of `model_holds_C15` / `_of_plan` are satisfiable: the two-file example under "a
+    KeyboardInterrupt while the second line of the first file is formatted". -/
+example : (∀ k, ¬ TwoFaults (Plan.single 5 .raiseBase) k) ∧
+    (∀ ev ∈ (runJobs {} (Plan.single 5 .raiseBase) 0 fsEx jobsEx).2, ev.1 ≠ "removeTemp!") ∧
+    (runJobs {} (Plan.single 5 .raiseBase) 0 fsEx jobsEx).1 = .raised 5 := by
+  refine ⟨?_, by decide +kernel, by decide +kernel⟩
+  intro q ⟨h1, h2⟩
+  simp only [Plan.single] at h1 h2
+  by_cases hq : q = 5
+  · subst hq; simp at h2
+  · simp [hq] at h1
+
+/-- The monitor is not vacuous: it rejects the pre-fix leftover and a truncated source; the weaker verdict
+    tolerates the leftover (and nothing else); a source matched twice may hold either result. -/
 example : (judge fsEx (fsEx ++ [("tmp#0", "X")]) [("a.txt", "XY")] .raised).holds = false ∧
+    (judge fsEx (fsEx ++ [("tmp#0", "X")]) [("a.txt", "XY")] .raised).holdsDirty = true ∧
     (judge fsEx [("a.txt", "X"), ("b.txt", "BB")] [("a.txt", "XY")] .raised).holds = false ∧
+    (judge fsEx [("a.txt", "X"), ("b.txt", "BB")] [("a.txt", "XY")] .raised).holdsDirty = false ∧
+    (judge fsEx (fsEx ++ [("other", "X")]) [("a.txt", "XY")] .raised).holdsDirty = false ∧
     (judge fsEx [("a.txt", "XY"), ("b.txt", "B")] [("a.txt", "XY")] .ok).holds = false ∧
-    (judge fsEx (fsEx ++ [("tmp#0", "X")]) [("a.txt", "XY")] .killed).holds = true := by
+    (judge fsEx (fsEx ++ [("tmp#0", "X")]) [("a.txt", "XY")] .killed).holds = true ∧
+    (judge fsEx [("a.txt", "N1"), ("b.txt", "BB")] [("a.txt", "N1"), ("a.txt", "N2")] .killed).holds = true ∧
+    (judge fsEx [("a.txt", "N1"), ("b.txt", "BB")] [("a.txt", "N1"), ("a.txt", "N2")] .ok).holds = false ∧
+    (judge fsEx [("a.txt", "N2"), ("b.txt", "BB")] [("a.txt", "N1"), ("a.txt", "N2")] .ok).holds = true := by
   decide +kernel
 
 end Pypyr.C15
